@@ -22,6 +22,9 @@ Fixpoint field_in (key : string) (o : option fopts) (t : ftype) (fs : fields) : 
   match fs with
   | FNil => False
   | FCons k' o' t' rest => (k' = key /\ o' = o /\ t' = t) \/ field_in key o t rest
+  | FEmbed opt _ inner rest =>
+    (* the members of a non-optional embedded struct are fields of the same object *)
+    (opt = false /\ field_in key o t inner) \/ field_in key o t rest
   end.
 
 (* the primitive kind behind any number of pointers *)
@@ -39,12 +42,20 @@ Definition field_cond (cfg : ucfg) (key : string) (o : option fopts) (t : ftype)
 Lemma meets_fields_field : forall cfg fs obj key o t,
   meets_fields cfg fs obj = true -> field_in key o t fs -> field_cond cfg key o t obj = true.
 Proof.
-  intros cfg fs. induction fs as [|k' o' t' rest IH]; intros obj key o t Hm Hin.
-  - contradiction.
-  - simpl in Hm. apply andb_true_iff in Hm. destruct Hm as [Hm Hr].
+  intros cfg fs.
+  apply (fields_mind (fun _ => True)
+           (fun fs => forall obj key o t, meets_fields cfg fs obj = true -> field_in key o t fs ->
+                                          field_cond cfg key o t obj = true)); auto.
+  - intros k' o' t' _ rest IH obj key o t Hm Hin.
+    simpl in Hm. apply andb_true_iff in Hm. destruct Hm as [Hm Hr].
     destruct Hin as [[Hk [Ho Ht]]|Hin].
     + subst. exact Hm.
     + apply (IH obj key o t Hr Hin).
+  - intros opt ptr inner IHi rest IHr obj key o t Hm Hin.
+    simpl in Hm. apply andb_true_iff in Hm. destruct Hm as [Hm Hr].
+    destruct Hin as [[Hopt Hin]|Hin].
+    + subst opt. apply (IHi obj key o t Hm Hin).
+    + apply (IHr obj key o t Hr Hin).
 Qed.
 
 Lemma meets_scalar : forall cfg t k o v,
